@@ -255,9 +255,12 @@ impl<F: Filter, S: PtpInstanceStateMutex> PtpInstance<F, S> {
 
     /// Time to wait between calls to [`PtpInstance::bmca`]
     pub fn bmca_interval(&self) -> core::time::Duration {
-        core::time::Duration::from_secs_f64(
+        // Before the first port is added the interval is still at its initial
+        // (maximal) value, which does not fit a `core::time::Duration`
+        core::time::Duration::try_from_secs_f64(
             2f64.powi(self.log_bmca_interval.load(Ordering::Relaxed) as i32),
         )
+        .unwrap_or(core::time::Duration::MAX)
     }
 
     /// Set the clock quality of the instance
